@@ -90,8 +90,8 @@ def ta_state_findings(rec, cfg, machine, prev_grants=None):
                     hp = grants[c['id']]['pool']
                     if hp != g['pool'] and g['pool'] in ancestors(hp) and not (set(pools[hp]['shar']) - E - set().union(*[set(x['exclusive']) for x in gl])):
                         sig = 'descendant-of-slicing-grant'
-                out.append(F('C01', 'exclusive-not-in-others-cpuset', sig,
-                             'exclusive CPUs %s of %s are in the allowed cpuset %s of live container %s' % (sorted(ov), g['id'], c['cpus'], c['id']), seq))
+                out.append(dict(F('C01', 'exclusive-not-in-others-cpuset', sig,
+                                  'exclusive CPUs %s of %s are in the allowed cpuset %s of live container %s' % (sorted(ov), g['id'], c['cpus'], c['id']), seq), ctr=c['id']))
     for c in cache.values():
         if c['state'] not in LIVE:
             continue
